@@ -52,8 +52,9 @@ def feq(a, b, rtol=1e-12):
 class Reduce1D(Subspace):
     shard = 8
 
-    def __init__(self, name, lo, hi, dtype="f8", maxthreads=8, seed=0):
+    def __init__(self, name, lo, hi, dtype="f8", maxthreads=8, seed=0, footprint=False):
         self.name, self.dtype, self.maxthreads, self.seed = name, dtype, maxthreads, seed
+        self.footprint = footprint
         self.ws = W.WordSpace([0, 1] if C.can_null(dtype) else [1], lo, hi)
         self.warm_key = f"r1-{dtype}"
 
@@ -61,7 +62,8 @@ class Reduce1D(Subspace):
         return len(self.ws)
 
     def case(self, i):
-        return dict(xs=self.ws.at(i), dtype=self.dtype, maxthreads=self.maxthreads, seed=self.seed)
+        return dict(xs=self.ws.at(i), dtype=self.dtype, maxthreads=self.maxthreads, seed=self.seed,
+                    footprint=self.footprint)
 
     def run(self, case):
         from groupby_lib import nanops as no
@@ -74,6 +76,8 @@ class Reduce1D(Subspace):
         temporal = arr.dtype.kind in "mM"
         seams = env.seams()
         seams.set(executor=sched.NAMESPACE)
+        fpr = bool(case.get("footprint"))
+        sched.FOOTPRINT.reset(fpr)
         funcs = ["count", "nanmin", "nanmax"] if temporal else \
             ["nansum", "nanmean", "nanmin", "nanmax", "count", "nanvar0", "nanvar1", "nanstd0", "nanstd1"]
         with warnings.catch_warnings():
@@ -132,6 +136,11 @@ class Reduce1D(Subspace):
                     if not feq(out, ref[f], rtol):
                         res.fail("values", f"{tag}: expected {ref[f]} got {out}")
         sched.set_schedule(sched.Schedule())
+        if fpr:
+            for msg in sorted(set(sched.FOOTPRINT.conflicts))[:3]:
+                res.fail("independence", msg)
+            res.extra = {"footprint_task_bodies_checked": sched.FOOTPRINT.tasks_checked}
+            sched.FOOTPRINT.reset(False)
         seams.reset()
         return res
 
@@ -167,6 +176,7 @@ class Reduce2D(Subspace):
         seams = env.seams()
         seams.set(executor=sched.NAMESPACE)
         sched.set_schedule(sched.Schedule())
+        sched.FOOTPRINT.reset(True)  # per-column tasks of reduce_2d: footprints checked on every case
         for axis in (0, 1):
             for f in ("nansum", "nanmin", "nanmax"):
                 for T in (1, 2):
@@ -183,6 +193,10 @@ class Reduce2D(Subspace):
                     out = np.asarray(out, dtype="f8")
                     if out.shape != want.shape or not all(feq(a, b) for a, b in zip(out.ravel(), want.ravel())):
                         res.fail("values", f"{f} axis={axis} n_threads={T} shape={r}x{c}: expected {want.tolist()} got {out.tolist()}")
+        for msg in sorted(set(sched.FOOTPRINT.conflicts))[:3]:
+            res.fail("independence", msg)
+        res.extra = {"footprint_task_bodies_checked": sched.FOOTPRINT.tasks_checked}
+        sched.FOOTPRINT.reset(False)
         seams.reset()
         return res
 
@@ -390,6 +404,9 @@ def subspaces(tier, seed):
         sp.append(Reduce1D(f"reducers-{dt}-len1to{L+2}", 1, L + 2, dt, maxthreads=12, seed=seed))
     for dt in ("M8[ns]", "m8[us]"):
         sp.append(Reduce1D(f"reducers-{dt}-len1to{L-2}", 1, L - 2, dt, seed=seed))
+    # task footprints of the per-block reducer tasks (write-write conflicts on shared memory)
+    sp.append(Reduce1D(f"footprint-reducers-f8-len{5 if q else 7}", 5 if q else 7, 5 if q else 7, "f8",
+                       maxthreads=4, seed=seed, footprint=True))
     for shape in ((2, 2), (2, 3), (3, 2)) + (() if q else ((3, 3), (1, 4), (4, 1))):
         sp.append(Reduce2D(f"reducers-2d-{shape[0]}x{shape[1]}", shape, seed=seed))
     for dt in ("i1", "i4", "u1", "i8", "f4"):
